@@ -67,7 +67,34 @@ func newEnv(cfg map[string]interface{}, variant int) *env {
 		vals[i] = types.NewValidator(k.priv.PubKey(), e.power[i], true)
 		e.total += e.power[i]
 	}
-	e.valSet = types.NewValidatorSet(vals)
+	// the set reaches its final membership/powers through different histories (the tallies must use the CURRENT total):
+	// directly, through a power Update of one member, or through Add + Remove of an extra member
+	switch variant % 3 {
+	case 1:
+		pre := make([]*types.Validator, e.n)
+		for i, v := range vals {
+			pre[i] = v.Copy()
+		}
+		pre[variant%e.n].VotingPower += 5
+		e.valSet = types.NewValidatorSet(pre)
+		e.valSet.TotalVotingPower() // populate the cache before the change
+		e.valSet.Update(vals[variant%e.n])
+	case 2:
+		extra := crypto.GenPrivKeyEd25519FromSecret([]byte("verif-extra"))
+		e.valSet = types.NewValidatorSet(vals)
+		e.valSet.TotalVotingPower()
+		ev := types.NewValidator(extra.PubKey(), 7, true)
+		e.valSet.Add(ev)
+		e.valSet.TotalVotingPower()
+		e.valSet.Remove(ev.Address)
+	default:
+		e.valSet = types.NewValidatorSet(vals)
+	}
+	for i, v := range e.valSet.Validators { // Accum differs between histories, membership and powers must not
+		if !bytes.Equal(v.Address, vals[i].Address) || v.VotingPower != e.power[i] {
+			panic("validator set construction went wrong")
+		}
+	}
 	e.blocks = map[string]types.BlockID{}
 	e.keyName = map[string]string{}
 	for _, b := range cfg["Blocks"].([]interface{}) {
